@@ -366,8 +366,13 @@ class Model:
                                     # Just assign without indexing
                                     val = value
                                 elif isinstance(value, list):
+                                    # The attribute belongs to the last component of the path: an array inside
+                                    # an array of components is indexed with its own (trailing) indices only.
+                                    depth, probe = 0, value
+                                    while isinstance(probe, list) and probe:
+                                        depth, probe = depth + 1, probe[0]
                                     val = value
-                                    for i in ind:
+                                    for i in ind[len(ind) - depth :]:
                                         val = val[i]
                                 elif isinstance(value, (ca.DM, np.ndarray)):
                                     val = value[ind]
